@@ -7,7 +7,7 @@ CONSTANTS
   NoReset = FALSE
   SwallowApp = FALSE
   ResetOnRecover = FALSE
-  StaleGuard = FALSE
+  StaleGuard = TRUE
 SPECIFICATION MCSpec
 INVARIANT Refines
 CONSTRAINT Bound
